@@ -13,6 +13,9 @@ CHECKS = {
  "C11": ("exploration", "bounded-exhaustive enumeration of literals (dense range, boundaries x spellings, float grid) against str::parse and an independent bignum literal evaluator",
          "odometer", "every integer in [-70000,70000] and every boundary magnitude in every radix/underscore/suffix spelling, quoted and bare, alone and inside a list, for all 24 integer targets; float grid incl. f32 rounding midpoints; all bool/char/String/PathBuf forms",
          "std str::parse is the specification of acceptance; syn's literal lexing is trusted", "DESIGN.md §4 C11"),
+ "C14": ("model_checking", "bounded-exhaustive enumeration of item lists and key-repetition patterns on the real map conversions, reference map model stepped per item",
+         "odometer", "every item list up to length 4/6 over a 9-symbol alphabet and every key-repetition pattern x good/bad mask up to length 6/8 for all 25 map instantiations, compared with a reference map model (entries or leaf multiset); Hash and BTree twins compared",
+         "the element type's own conversion defines per-item value outcomes; leaf order not compared", "DESIGN.md §4 C14"),
 }
 PENDING = {}
 props = [json.loads(l) for l in open(os.path.join(V, "properties.jsonl"))]
